@@ -94,7 +94,7 @@ PROPS = {
             'RegisterAllocator::restore is proved in the Verus unit modulo the trusted std contract of Vec::retain (wrapper R10, cross-checked by BOUNDED Kani harnesses that run the real std code)',
             'opaque stand-ins for JsError and JsString (cheap_clone returns an equal string); FxHashMap modelled as a finite map whose key equality is content equality (trusted); f64::to_bits as an uninterpreted view; Option::is_none_or std contract assumed',
             'BytecodeBuilder::emit_load_number is under no contract (float logic + hash-map insertion: outside both verifiers)',
-            'call sites in compile_* are covered by the side battery only (about 580 programs incl. spread families and deep-nesting cases run in a child process; testing, not proof); two known findings: the constant-pool limit is cumulative per chunk; deep nesting (1000+ levels) aborts the process with a stack overflow',
+            'call sites in compile_* are covered by the side battery only (about 670 programs incl. super/new/method call shapes, spread families and deep-nesting cases run in a child process; testing, not proof); two known findings: the constant-pool limit is cumulative per chunk; deep nesting (1000+ levels) aborts the process with a stack overflow',
         ],
         'explanation': 'Verus contracts on the real text of RegisterAllocator and BytecodeBuilder (abstract view = set of handed-out registers; '
                        'representation invariant; exact constant indices; exact jump operands), by induction over the invariant for every call sequence.',
